@@ -74,8 +74,8 @@ Section Model.
 
   (* evaluation order of the innermost expression: phase_tensors[phase],
      orientations[i][n], fractions[i][n], phase_assemblage.index(phase), phase_fractions[.] *)
-  Definition grain_step (ptensors : list (arr F)) (assemblage : list Z) (phis : list F)
-             (m : mineral) (i n : nat) (acc : arr F) : res (arr F) :=
+  Definition grain_val (ptensors : list (arr F)) (assemblage : list Z) (phis : list F)
+             (m : mineral) (i n : nat) : res (arr F) :=
     if Z.ltb (m_phase m) 0 then Err IndexError else
     match nth_error ptensors (Z.to_nat (m_phase m)) with
     | None => Err IndexError
@@ -91,11 +91,19 @@ Section Model.
           | Some k =>
             match nth_error phis k with
             | None => Err IndexError
-            | Some phi => Ok (add36 acc (grain_term C4 o f phi))
+            | Some phi => Ok (grain_term C4 o f phi)
             end
           end
         end
       end
+    end.
+
+  (* average_tensors[i] += ... *)
+  Definition grain_step (ptensors : list (arr F)) (assemblage : list Z) (phis : list F)
+             (m : mineral) (i n : nat) (acc : arr F) : res (arr F) :=
+    match grain_val ptensors assemblage phis m i n with
+    | Err e => Err e
+    | Ok v => Ok (add36 acc v)
     end.
 
   (* a loop with early exit on the first error *)
